@@ -38,6 +38,10 @@ def obligations(tier):
         obs.append(dict(name="sock-resolve-unix-len%d" % ul, harness="sockaddr.c", entry="h_unixlong", defs=["ULEN=%d" % ul], vsrcs=["models/stub_warnp.c"], replace=["sock_resolve_host:stub_host"],
                     unwind=ul + 4, timeout=to, claim="sock_resolve on every Unix path of %d characters (sun_path holds 108 bytes): %s, no write outside the sockaddr_un" % (ul, "accepted, copied with its NUL" if ul < 108 else "rejected"),
                     bounds="length %d" % ul, stubs=["warn -> empty"]))
+    for l0, l1 in [(16, 20), (20, 16), (20, 20), (16, 16), (5, 3)]:
+        obs.append(dict(name="aws-readkeys-lines-%d-%d" % (l0, l1), harness="rdkeys.c", entry="h_readkeys", defs=["L0=%d" % l0, "L1=%d" % l1, "NLINES=2"], srcs=["util/insecure_memzero.c"], unwind=44, unwindset=["insecure_memzero_func.0:50"], timeout=to, flags=["--memory-leak-check"],
+                        claim="aws_readkeys on every 2-line file with lines of %d and %d arbitrary non-NUL bytes: stays inside the line buffer and the strings; 0 only if every line is ACCESS_KEY_(ID|SECRET)=value<EOL> with one of each; file closed exactly once; nothing leaked on failure" % (l0, l1),
+                        bounds="2 lines of %d and %d bytes" % (l0, l1), stubs=["fopen/fgets/ferror/fclose -> scripted file", "strdup -> exact-size copy", "strcspn -> C model validated against glibc", "warn -> empty"]))
     return obs
 TRUSTED = ["CBMC 6.11 C semantics, pointer/bounds checks", "cadical"]
 ASSUMPTIONS = []
